@@ -24,7 +24,8 @@ ASSUMPTIONS = [
     "MuJoCo have different representations'), compared with 1e-9; arena-only fields that MJX's Data does not carry are not "
     "compared; efc rows with all-zero Jacobian are dropped by get_data (io.py: nefc counts rows with any(efc_J != 0))",
     "make_data vs put_data(fresh MjData): contact.dist of unused contact slots is 1e10 in put_data (io.py _put_contact pads "
-    "with dist=1e10 'zero contact') and 0 in make_data - both mean 'no contact data yet'; tolerated only for that leaf",
+    "with dist=1e10, geom=0 'zero contact') and dist=0, geom=-1 in make_data - both are placeholders that collision() overwrites; "
+    "values of the contact.* leaves are therefore not compared (shape and dtype are)",
 ]
 
 STATE_NAMES = ["time", "qpos", "qvel", "act", "history", "qacc_warmstart", "ctrl", "qfrc_applied", "xfrc_applied",
@@ -141,7 +142,7 @@ def check_make_data(R, m, mx, P, base):
             if x.dtype != y.dtype:
                 _viol(P, "make_data-leaf-dtype-differs-from-put_data:%s" % k.lstrip("."), base, which=label, leaf=k,
                       put=str(x.dtype), make=str(y.dtype))
-            if k.endswith(".contact.dist"):
+            if ".contact." in k:   # unused contact slots are placeholders in both (see ASSUMPTIONS)
                 continue
             if not np.array_equal(x, y):
                 _viol(P, "make_data-leaf-value-differs-from-put_data", base, which=label, leaf=k, put=x.tolist(), make=y.tolist())
@@ -163,7 +164,7 @@ COPIED = ["time", "qpos", "qvel", "act", "qacc_warmstart", "ctrl", "qfrc_applied
           "cam_xmat", "subtree_com", "cvel", "cdof", "cdof_dot", "qfrc_bias", "qfrc_gravcomp", "qfrc_fluid",
           "qfrc_passive", "qfrc_actuator", "actuator_force", "actuator_length", "qfrc_smooth", "qacc_smooth",
           "qfrc_constraint", "qfrc_inverse", "cinert", "crb", "ten_velocity", "actuator_velocity", "cacc", "cfrc_int",
-          "cfrc_ext", "subtree_linvel", "subtree_angmom", "M", "actuator_moment", "ten_J", "ten_wrapadr", "ten_wrapnum",
+          "cfrc_ext", "subtree_linvel", "subtree_angmom", "M", "ten_wrapadr", "ten_wrapnum",
           "wrap_obj", "wrap_xpos"]
 
 
@@ -193,6 +194,20 @@ def check_roundtrip(R, m, d, P, base, label):
             _viol(P, "get_data(put_data(d))-field-differs:%s" % f, base, stage=label, field=f,
                   orig=a.tolist(), back=b.tolist())
     P.count("roundtrip_fields_compared", n)
+    # sparse fields are compared through their dense form (explicit zeros may be dropped by a dense->sparse conversion)
+    if m.nu:
+        A, B = np.zeros((m.nu, m.nv)), np.zeros((m.nu, m.nv))
+        mj.mju_sparse2dense(A, d.actuator_moment, d.moment_rownnz, d.moment_rowadr, d.moment_colind)
+        mj.mju_sparse2dense(B, d2.actuator_moment, d2.moment_rownnz, d2.moment_rowadr, d2.moment_colind)
+        if not np.array_equal(A, B):
+            _viol(P, "get_data(put_data(d))-field-differs:actuator_moment", base, stage=label, orig=A.tolist(), back=B.tolist())
+    if m.ntendon:
+        A, B = np.zeros((m.ntendon, m.nv)), np.zeros((m.ntendon, m.nv))
+        mj.mju_sparse2dense(A, d.ten_J, m.ten_J_rownnz, m.ten_J_rowadr, m.ten_J_colind)
+        mj.mju_sparse2dense(B, d2.ten_J, m.ten_J_rownnz, m.ten_J_rowadr, m.ten_J_colind)
+        if not np.array_equal(A, B):
+            _viol(P, "get_data(put_data(d))-ten_J-not-aligned-with-model-sparsity-structure", base, stage=label,
+                  orig=A.tolist(), back=B.tolist(), raw_orig=np.asarray(d.ten_J).tolist(), raw_back=np.asarray(d2.ten_J).tolist())
     for f in ("qLD", "qLDiagInv"):
         e = _rel(getattr(d2, f), getattr(d, f))
         P.note_max("roundtrip_relerr_" + f, e)
@@ -355,12 +370,12 @@ def worker(case):
 
 def _cases(ctx):
     cases = []
-    n_io = ctx.pick(24, 240)
+    n_io = ctx.pick(16, 240)
     for i in range(n_io):
         cases.append({"key": int(core.stable_hash("C44io", ctx.seed, i)), "profile": ["constrained", "contact", "smooth"][i % 3],
                       "parts": ["state", "make", "roundtrip"], "nrandom": ctx.pick(12, 40), "mocap": 1 if i % 2 == 0 else None,
                       "batch": 0, "fns": []})
-    n_x = ctx.pick(10, 90)
+    n_x = ctx.pick(8, 90)
     for i in range(n_x):
         B = [1, 2, 7][i % 3]
         if ctx.quick:   # un-jitted step costs ~100 s of op-by-op dispatch on a loaded machine: thorough tier only
